@@ -124,6 +124,15 @@ svc = service("UniversalService", [
         arg("id", I, "path"),
         arg("body", mp(r("Color"), lst(r("Color"))), "body"),
     ]),
+    # arguments whose wire id equals their (multi-word) name: no log_as is needed to tell them apart
+    endpoint("sameIds", "GET", "/u/sameids/{pathWord}", [
+        arg("pathWord", S, "path", safety="SAFE"),
+        arg("pageToken", S, "query", "pageToken", safety="SAFE"),
+        arg("pageSize", opt(I), "query", "pageSize", safety="SAFE"),
+        arg("secretWord", S, "query", "secretWord"),
+        arg("traceId", S, "header", "traceId", safety="SAFE"),
+        arg("unsafeHeader", opt(I), "header", "unsafeHeader"),
+    ]),
     endpoint("context", "GET", "/u/context", [arg("arg", opt(S), "query", "arg")], tags=["server-request-context"]),
     endpoint("noop", "POST", "/u/noop", []),
 ], P)
